@@ -32,14 +32,28 @@ SHAPES = [
 ]
 NA, NS = len(ATOMS), len(SHAPES)
 
+# statement frames: what the model is joined to, which model, how many models.  {ON} = the ON clause of the (first) model join
+FRAMES = [
+    dict(name='table-model', frm='int1.tbl1 AS t JOIN mindsdb.pred AS m{ON}', tables={'tbl1'}, models=[('mindsdb', ['pred'])]),
+    dict(name='subselect-model', frm='(SELECT * FROM int1.tbl1 WHERE z > 0) AS t JOIN mindsdb.pred AS m{ON}', tables={'tbl1'}, models=[('mindsdb', ['pred'])], inner='z > 0'),
+    dict(name='two-tables-model', frm='int1.tbl1 AS t JOIN int2.tbl2 AS u ON t.id = u.id JOIN mindsdb.pred AS m{ON}', tables={'tbl1', 'tbl2'}, models=[('mindsdb', ['pred'])]),
+    dict(name='project-model', frm='int1.tbl1 AS t JOIN proj.pred2 AS m{ON}', tables={'tbl1'}, models=[('proj', ['pred2'])]),
+    dict(name='versioned-model', frm='int1.tbl1 AS t JOIN mindsdb.pred.3 AS m{ON}', tables={'tbl1'}, models=[('mindsdb', ['pred', '3'])]),
+    dict(name='two-models', frm='int1.tbl1 AS t JOIN mindsdb.pred AS m{ON} JOIN proj.pred2 AS m2', tables={'tbl1'}, models=[('mindsdb', ['pred']), ('proj', ['pred2'])]),
+    dict(name='left-join-model', frm='int1.tbl1 AS t LEFT JOIN mindsdb.pred AS m{ON}', tables={'tbl1'}, models=[('mindsdb', ['pred'])]),
+]
+NF = len(FRAMES)
 
-def build(shape, a, b, c, on_clause, using, model_first):
+
+def build(shape, a, b, c, on_clause, using, model_first, frame=0):
     tmpl, top = SHAPES[shape]
     slots = {'A': ATOMS[a], 'B': ATOMS[b], 'C': ATOMS[c]}
     used = [k for k in 'ABC' if '{%s}' % k in tmpl]
     where = tmpl.format(A=slots['A'][0], B=slots['B'][0], C=slots['C'][0])
     on = ' ON t.id = m.id' if on_clause else ''
-    if model_first:
+    if frame:
+        frm = FRAMES[frame]['frm'].replace('{ON}', on)
+    elif model_first:
         frm = 'mindsdb.pred AS m JOIN int1.tbl1 AS t' + on
     else:
         frm = 'int1.tbl1 AS t JOIN mindsdb.pred AS m' + on
@@ -172,11 +186,40 @@ def same_condition(pushed, written):
     return r
 
 
-def leaf(shape, a, b, c, on_clause, using, model_first):
+def _nodes(n, acc=None):
+    from mindsdb_sql.parser.ast.base import ASTNode
+    acc = [] if acc is None else acc
+    if isinstance(n, ASTNode):
+        acc.append(n)
+        for v in vars(n).values():
+            _nodes(v, acc)
+    elif isinstance(n, (list, tuple)):
+        for v in n:
+            _nodes(v, acc)
+    return acc
+
+
+def depends_on(plan, step_num):
+    """numbers of the steps the result of step `step_num` is computed from (transitively)"""
+    by_num = {s.step_num: s for s in plan.steps}
+    seen, todo = set(), [step_num]
+    while todo:
+        n = todo.pop()
+        if n in seen or n not in by_num:
+            continue
+        seen.add(n)
+        for r in PL.results_in(by_num[n]):
+            if isinstance(r.step_num, int):
+                todo.append(r.step_num)
+    return seen
+
+
+def leaf(shape, a, b, c, on_clause, using, model_first, frame=0):
     from mindsdb_sql.planner import steps as S
     from mindsdb_sql.exceptions import PlanningException
-    sql, top_atoms, all_atoms, has_or = build(shape, a, b, c, on_clause, using, model_first)
-    info = {'sql': sql}
+    F = FRAMES[frame]
+    sql, top_atoms, all_atoms, has_or = build(shape, a, b, c, on_clause, using, model_first, frame)
+    info = {'sql': sql, 'frame': F['name']}
     problems = []
     try:
         plan = PL.plan_sql(sql, **PL.catalog())
@@ -188,13 +231,36 @@ def leaf(shape, a, b, c, on_clause, using, model_first):
     steps = [s for s, _, _ in PL.all_steps(plan.steps)]
     preds = [s for s in steps if isinstance(s, S.ApplyPredictorStep)]
     fetch = [s for s in steps if isinstance(s, S.FetchDataframeStep)]
-    if len(preds) != 1:
-        problems.append('%d apply-predictor steps for one model reference' % len(preds))
+    if len(preds) != len(F['models']):
+        problems.append('%d apply-predictor steps for %d model reference(s)' % (len(preds), len(F['models'])))
+        return problems, info
+    got_models = [(str(x.namespace).lower(), [str(q).lower() for q in x.predictor.parts]) for x in preds]
+    if got_models != [(ns, parts) for ns, parts in F['models']]:
+        problems.append('models applied %r, expected %r' % (got_models, F['models']))
         return problems, info
     p = preds[0]
-    # input of the model = result of the data it is joined to
-    if len(fetch) != 1 or p.dataframe.step_num != fetch[0].step_num:
-        problems.append('model input is not the fetched table (dataframe=%r, fetches=%d)' % (p.dataframe, len(fetch)))
+    # input of the model = result of the data it is joined to: computed from exactly the fetches of the tables written before it
+    if frame == 0:
+        if len(fetch) != 1 or p.dataframe.step_num != fetch[0].step_num:
+            problems.append('model input is not the fetched table (dataframe=%r, fetches=%d)' % (p.dataframe, len(fetch)))
+    else:
+        by_num = {s_.step_num: s_ for s_ in plan.steps}
+        deps = depends_on(plan, p.dataframe.step_num) if isinstance(p.dataframe.step_num, int) else set()
+        dep_tables = set()
+        for n in deps:
+            st = by_num[n]
+            if isinstance(st, S.FetchDataframeStep):
+                dep_tables |= {str(t.parts[-1]).lower() for t in PL.tables_of(st.query)}
+            if isinstance(st, S.ApplyPredictorStep):
+                problems.append('the input of the first model depends on a model step')
+        if dep_tables != F['tables']:
+            problems.append('model input is computed from tables %s, expected %s' % (sorted(dep_tables), sorted(F['tables'])))
+        if len(preds) == 2:
+            deps2 = depends_on(plan, preds[1].dataframe.step_num) if isinstance(preds[1].dataframe.step_num, int) else set()
+            if p.step_num not in deps2 and not (deps2 & deps):
+                problems.append('the input of the second model is unrelated to the data and the first model')
+            if preds[1].row_dict:
+                problems.append('second model got arguments %r although no condition mentions it' % (preds[1].row_dict,))
     # model arguments = exactly the top-level  model.col = const  conjuncts
     want_rd = {}
     for at in top_atoms:
@@ -212,8 +278,14 @@ def leaf(shape, a, b, c, on_clause, using, model_first):
     for at in top_atoms:
         if at[1] == 'table':
             allowed.append(parse_sql('select 1 from t where ' + at[0], 'mindsdb').where)
+    if F.get('inner'):
+        allowed.append(parse_sql('select 1 from t where ' + F['inner'], 'mindsdb').where)
+    from mindsdb_sql.parser.ast import Parameter as _Param, Select as _Select
     for f in fetch:
         w = f.query.where
+        if isinstance(f.query.from_table, _Select) and w is None:
+            w = f.query.from_table.where
+        on_t = 'tbl1' in {str(t.parts[-1]).lower() for t in PL.tables_of(f.query)}
         conj = []
 
         def flat(n):
@@ -224,7 +296,9 @@ def leaf(shape, a, b, c, on_clause, using, model_first):
                 conj.append(n)
         flat(w)
         for cnd in conj:
-            verdicts = [same_condition(cnd, w_) for w_ in allowed]
+            if any(isinstance(x, _Param) for x in _nodes(cnd)):
+                continue        # join-key filter fed by an earlier step: C08's subject
+            verdicts = [same_condition(cnd, w_) for w_ in (allowed if on_t else [])]
             if 'yes' not in verdicts:
                 txt = ' '.join(str(cnd).split()).lower()
                 if 'unknown' in verdicts:
@@ -268,9 +342,21 @@ def leaf(shape, a, b, c, on_clause, using, model_first):
     return problems, info
 
 
-def step(shape, a, b, c, on_clause, using, model_first):
+def step(shape, a, b, c, on_clause, using, model_first, frame=0):
     shape, a, b, c = PL.ci(shape, NS - 1), PL.ci(a, NA - 1), PL.ci(b, NA - 1), PL.ci(c, NA - 1)
     on_clause, using, model_first = PL.cb(on_clause), PL.cb(using), PL.cb(model_first)
     with PL.NoTracing():
-        pr, info = leaf(shape, a, b, c, on_clause, using, model_first)
+        pr, info = leaf(shape, a, b, c, on_clause, using, model_first, frame)
+    return len(pr) + len(info.get('undecided', ()))
+
+
+FRAME_SHAPES = [i for i, (t, _) in enumerate(SHAPES) if '{C}' not in t]      # shapes over the slots A, B only
+
+
+def step_frame(frame, k, a, b, on_clause, using):
+    k, a, b = PL.ci(k, len(FRAME_SHAPES) - 1), PL.ci(a, NA - 1), PL.ci(b, NA - 1)
+    on_clause, using = PL.cb(on_clause), PL.cb(using)
+    c = [x for x in range(NA) if x not in (a, b)][0]
+    with PL.NoTracing():
+        pr, info = leaf(FRAME_SHAPES[k], a, b, c, on_clause, using, False, frame)
     return len(pr) + len(info.get('undecided', ()))
